@@ -109,6 +109,18 @@ CLAIMED = {
         "values are not decided.",
         design_ref="DESIGN.md §4 C11",
     ),
+    "C12": dict(
+        technique=TECH + "cross-function sibling signatures (signer's ProtoRrsig/Record canonical compose vs "
+        "validator's signed_data), canonical-sort presence, structure of rrsig_label_count",
+        text="Decides narrow structural necessary conditions of C12: the validator's RrsigExt::signed_data "
+        "rebuilds the RRSIG RDATA prefix with the same eight fields, order and codecs the signer's "
+        "ProtoRrsig::compose_canonical writes (signer name lower-cased); per RR it writes the owner through "
+        "compose_canonical on every branch (only the literal wildcard label raw), then type, class, the RRSIG's "
+        "original TTL and the canonical length-prefixed RDATA, matching Record::compose_canonical; both sides "
+        "order RRs with canonical_cmp; rrsig_label_count tests only the leftmost label for `*` and the signer puts "
+        "it into the Labels field. Cryptography, key tags and DS digests are not decided.",
+        design_ref="DESIGN.md §4 C12",
+    ),
     "C14": dict(
         technique=TECH + "RFC 4035 5.3.1 guard-table dominance in check_sig, composition check of the signature "
         "cache key, operand-direction check of the NSEC delegation/DNAME exclusion, typed unwrap/expect audit over "
